@@ -282,18 +282,23 @@ def rule_trigger_complements_guard(chk, rid):
                   "volatility) is exactly the negation of the condition under which Context.evaluate still looks the query up")
     ev = F.Evaluate(repo)
     ea = F.EvalAction(repo)
+    from ..lib import nnf, nnf_mentions, nnf_lits
     g = ev.one(ev.get_calls, "cache lookup")
-    gl = dominating_literals(ev.cfg, ev.node(g))
-    guard = None
-    for e, txt, pol, tn in gl:
-        if ea.extravar in txt:
-            # the whole or-literal over the extra parameters
-            for d in flatten_boolop(ev.cfg.nodes[tn].ast, ast.And):
-                if ea.extravar in U(d):
-                    guard = d
-    if guard is None:
+    gn = ev.node(g)
+    # the test edge that governs the lookup and mentions the extra parameters
+    gset = None
+    for t in ev.cfg.nodes:
+        if t.kind != "test" or ea.extravar not in U(t.ast):
+            continue
+        for lab in ("T", "F"):
+            if ev.cfg.edge_dominates(t.id, lab, gn):
+                tree = nnf(t.ast, lab == "T", _norm2)
+                parts = tree[1] if tree[0] == "and" else [tree]
+                mine = [p for p in parts if nnf_mentions(p, ea.extravar)]
+                if len(mine) == 1 and nnf_lits(mine[0]) is not None and (mine[0][0] in ("or", "lit")):
+                    gset = nnf_lits(mine[0])
+    if gset is None:
         raise AnalysisError("Context.evaluate: lookup guard over extra_parameters not found")
-    gset = {_norm2(d, True) for d in flatten_boolop(guard, ast.Or)}
     # trigger: the test dominating the `is_volatile = True` assignments
     cfg = ea.cfg
     trig = None
@@ -306,7 +311,12 @@ def rule_trigger_complements_guard(chk, rid):
     if trig is None:
         chk.ob(rid, ea.C, False, "no test over extra_parameters guards the volatility flag", ea.fn, ea.mod, key="complement")
         return
-    tset = {_norm2(d, True) for d in flatten_boolop(trig.ast, ast.And)}
+    ttree = nnf(trig.ast, True, _norm2)
+    tparts = ttree[1] if ttree[0] == "and" else [ttree]
+    tset = set()
+    for p in tparts:
+        if nnf_mentions(p, ea.extravar) and p[0] == "lit":
+            tset.add((p[1], p[2]))
     want = {(t, not p) for t, p in gset}
     chk.ob(rid, ea.C, tset == want, f"lookup guard {sorted(gset)}; volatility trigger {sorted(tset)}" + ("" if tset == want else
            ": the two disagree (e.g. an empty {} is looked up but then declared volatile, so the result is never stored and never reused)"),
